@@ -211,9 +211,20 @@ def case_engine(case, res):
     for k_ in kers:
         b.add_kernel(k_)
     spec = case["spec"]
-    b.set_epochs(mk_epochs(spec))
-    eng = b.build()
-    eng.sample_all_epochs()
+    if case.get("append_tail"):
+        # the configured schedule ends with the last slow-adaptation epoch; the remaining epochs are appended afterwards
+        n_head = max(i_ for i_, e_ in enumerate(spec) if e_[0] == 2) + 1
+        b.set_epochs(mk_epochs(spec[:n_head]))
+        eng = b.build()
+        eng.sample_all_epochs()
+        for e_ in mk_epochs(spec[n_head:])[1:]:
+            eng.append_epoch(e_)
+        res.ev("epochs_appended_after_final_slow_epoch", len(spec) - n_head)
+        eng.sample_all_epochs()
+    else:
+        b.set_epochs(mk_epochs(spec))
+        eng = b.build()
+        eng.sample_all_epochs()
     r = eng.get_results()
     state0 = {k: jnp.zeros(SHAPES[k], jnp.float32) for k in SHAPES}
     all_ks = r.kernel_states.unwrap().combine_all().unwrap()
@@ -223,7 +234,7 @@ def case_engine(case, res):
         imm = np.asarray(all_ks[kidx].inverse_mass_matrix)      # [C, T, ...]
         cmap = coord_map(kern, state0)
         t0 = 1
-        w = {"kernel": type(kern).__name__, "listing_order": kkeys, "diag": diag, "schedule": spec, "co_kernel": case["co_kernel"],
+        w = {"kernel": type(kern).__name__, "listing_order": kkeys, "diag": diag, "schedule": spec, "co_kernel": case["co_kernel"], "tail_appended": bool(case.get("append_tail")),
              "identifiers": [k_.identifier for k_ in kers], "flat_coordinates": [f"{k}[{j}]" for k, j in cmap]}
         for ei, (ty, d, _k) in enumerate(spec, start=1):
             if ty == 2 and t0 + d < imm.shape[1]:
@@ -265,7 +276,7 @@ def gen_cases(tier, seed):
         spec += [[1, 4, 1], [4, 4, 1]]
         cases.append({"kind": "engine", "idx": i, "seed": seed, "keys": keys, "diag": bool(i % 2), "kernel": "nuts" if i % 4 < 2 else "hmc",
                       "spec": spec, "co_kernel": bool(rng.random() < 0.7), "co_first": int(rng.integers(0, 2)),
-                      "engine_seed": int(rng.integers(2 ** 30)), "cost": 25})
+                      "engine_seed": int(rng.integers(2 ** 30)), "append_tail": bool(i % 2), "cost": 25})
     return cases
 
 
